@@ -56,6 +56,12 @@ func TestCheck(t *testing.T) {
 			}
 		}
 	}
+	for _, rate := range []int64{300000000, 700000000, 123456789, 1500000000, 3000000000, 999999999, 7} {
+		rate := rate
+		r.Case(fmt.Sprintf("rate/byte-rate/%dps", rate), func(c *h.Case) {
+			synctest.Test(t, func(t *testing.T) { byteRateCase(c, rate) })
+		})
+	}
 	r.Case("rate/timeout-boundaries", func(c *h.Case) {
 		synctest.Test(t, func(t *testing.T) { rateBoundaryCase(c) })
 	})
@@ -436,6 +442,49 @@ func describeRate(reqs []*rreq) []string {
 		out = append(out, fmt.Sprintf("#%d arrive=%v tokens=%d admitted=%v done=%v err=%v", i, q.arrive, q.tokens, q.admitted, q.doneAt, q.err))
 	}
 	return out
+}
+
+// byteRateCase: the IO path charges len(request) tokens: rates of hundreds of MB/s, rates that
+// do not divide 1e9 and rates above 1e9/s (token period below one nanosecond).
+func byteRateCase(c *h.Case, rate int64) {
+	r := c.R
+	rng := c.Rand()
+	for _, mp := range []float64{0, 1000, math.Inf(1)} {
+		size := int(rate / 200) // 5 ms worth of tokens per request
+		if size < 1 {
+			size = 1
+		}
+		n := 80
+		reqs := make([]*rreq, n)
+		at := time.Duration(0)
+		for i := range reqs {
+			if rng.Intn(4) == 0 {
+				at += time.Duration(rng.Intn(8)) * time.Millisecond
+			}
+			reqs[i] = &rreq{arrive: at, tokens: size/2 + rng.Intn(size+1)}
+		}
+		opts := []limiter.Option{}
+		if !math.IsInf(mp, 1) {
+			opts = append(opts, limiter.WithMaxPermits(mp))
+		}
+		t0 := time.Now()
+		lim := limiter.NewRateLimiter(rate, opts...)
+		// the IO path without allocating megabyte requests: Acquire is what IOHandler calls
+		ctx := context.Background()
+		for _, q := range reqs {
+			if d := q.arrive - time.Since(t0); d > 0 {
+				time.Sleep(d)
+			}
+			q.arrive = time.Since(t0)
+			q.err = lim.Acquire(ctx, q.tokens)
+			q.doneAt = time.Since(t0)
+			q.admitted = q.err == nil
+		}
+		r.Eval(int64(n))
+		rep := map[string]interface{}{"rate_per_s": rate, "max_permits": fmt.Sprint(mp), "requests": describeRate(reqs[:20])}
+		checkRate(c, reqs, rate, mp, 0, fmt.Sprintf("byte-rate:%dps:max%v", rate, mp), rep)
+		r.Distinct(fmt.Sprintf("br|%d|%v", rate, mp))
+	}
 }
 
 // rateBoundaryCase: the wait needed is exactly timeout-1ns, timeout, timeout+1ns.
